@@ -566,6 +566,31 @@ def _mpu_cls():
     return _MPU_CLS
 
 
+class YDict(dict):
+    """The module-level lock registry of _s3 with a yield point before every (atomic) access, so that check-then-act
+    sequences on it are interleaved too."""
+
+    def get(self, k, d=None):
+        _yield("R.get")
+        return dict.get(self, k, d)
+
+    def setdefault(self, k, d=None):
+        _yield("R.setdefault")
+        return dict.setdefault(self, k, d)
+
+    def __getitem__(self, k):
+        _yield("R.getitem")
+        return dict.__getitem__(self, k)
+
+    def __setitem__(self, k, v):
+        _yield("R.setitem")
+        dict.__setitem__(self, k, v)
+
+    def __contains__(self, k):
+        _yield("R.contains")
+        return dict.__contains__(self, k)
+
+
 @contextlib.contextmanager
 def _installed(ctx: _Ctx):
     """Patch the seams of odc.geo.cog._s3 / distributed for one scenario; restore everything afterwards."""
@@ -576,6 +601,7 @@ def _installed(ctx: _Ctx):
     if _CTX is not None:
         raise HarnessError("nested scenario")
     _capture_real_signatures(distributed)
+    saved_state_obj = S3._state
     saved_state = dict(S3._state)
     saved = [(S3, n, getattr(S3, n)) for n in ("_dask_client", "Lock") if hasattr(S3, n)]
     saved += [(distributed, n, getattr(distributed, n)) for n in ("get_client", "Variable", "Lock")]
@@ -586,7 +612,7 @@ def _installed(ctx: _Ctx):
             setattr(S3, n, ILock())
     _CTX = ctx
     try:
-        S3._state.clear()  # the lock registry: the lock is re-created (as an ILock) on first use
+        S3._state = YDict()  # the lock registry, empty: the lock is re-created (as an ILock) on first use
         if hasattr(S3, "_dask_client"):
             S3._dask_client = _current_client
         S3.Lock = ILock
@@ -597,6 +623,7 @@ def _installed(ctx: _Ctx):
     finally:
         for mod, n, v in saved:
             setattr(mod, n, v)
+        S3._state = saved_state_obj
         S3._state.clear()
         S3._state.update(saved_state)
         _CTX = None
@@ -839,7 +866,7 @@ DFS_SETUPS_THOROUGH = DFS_SETUPS + [  # 61050, 482, 964 schedules
     {"mode": "cluster", "share": [0, 1], "writes": [2, 1], "fin": 1, "explicit_client": False},
     {"mode": "cluster", "share": [0, 1], "writes": [2, 2], "fin": 2, "explicit_client": True},
 ]
-DFS_LIMIT = {"quick": 150, "thorough": 10**7}
+DFS_LIMIT = {"quick": 90, "thorough": 10**7}
 
 
 def e_dfs(tier):
